@@ -196,6 +196,14 @@ def body(env, cfg):
         env.assume((P[0] - P[1] >= 1) | (P[1] - P[0] >= 1))
         env.holds("equal control points with different weights (a different function) do not compare equal", not bool(C1 == C2) and not bool(C2 == C1))
         env.holds("a rational curve equals its copy", bool(C1 == _copy.deepcopy(C1)) and not bool(C1 != _copy.deepcopy(C1)))
+        # polynomial on one side, rational on the other, in both orders
+        env.holds("polynomial vs rational with the same control points and non-constant weights: different functions, both orders",
+                  not bool(A == C1) and not bool(C1 == A) and bool(A != C1) and bool(C1 != A))
+        s0 = P[0]
+        L = Curve([F(0), F(0), F(1), F(1)], [s0, 2 * s0])                                   # s0 * (1 + u)
+        R = Curve([F(0)] * 3 + [F(1)] * 3, [s0, F(4, 3) * s0, 2 * s0], [F(1), F(3, 2), F(2)])   # s0 * (1+u)^2 / (1+u)
+        env.holds("a polynomial and a genuinely rational description of the same function are equal, both orders",
+                  bool(L == R) and bool(R == L) and not bool(L != R) and not bool(R != L))
         kmode.unchanged(env, C1, s1, "== operand")
         kmode.unchanged(env, C2, s2, "== operand")
         return
